@@ -38,6 +38,7 @@ struct udp_run
 	};
 	std::map<std::string, std::shared_ptr<rop>> rops;
 	std::map<std::string, bool> waitw_pending;
+	std::map<std::int64_t, json::array> dst_of;
 	// fault injection (C04 / C12)
 	std::int64_t bcount = 0, fault_k = -1, boundaries = 0;
 	std::string fault_obj, fault_what;
@@ -76,6 +77,18 @@ struct udp_run
 		if (p.type != sim::aux::packet::type_t::payload || p.channel) return;
 		std::int64_t id = id_of_packet(p);
 		last_hop[id] = hop;
+		if (hop.rfind("out:", 0) == 0)
+		{
+			std::int64_t t = rec.sync();
+			json::object e; e["e"] = "WireU"; e["id"] = id; e["len"] = std::int64_t(p.buffer.size()); e["t"] = t;
+			e["from"] = ep_json(w, p.from);
+			std::uint32_t h = 2166136261u;
+			for (auto c : p.buffer) { h ^= c; h *= 16777619u; }
+			e["dig"] = std::int64_t(h & 0x3fffffff);
+			auto dit = dst_of.find(id);
+			if (dit != dst_of.end()) e["dst"] = dit->second;
+			rec.emit(e);
+		}
 		if (hop.rfind("in:", 0) == 0)
 		{
 			std::int64_t t = rec.sync();
@@ -241,6 +254,7 @@ struct udp_run
 			std::int64_t id = next_id++;
 			auto pl = payload_of(id, total);
 			sent_size[id] = total;
+			dst_of[id] = dst;
 			std::vector<asio::const_buffer> cb;
 			std::size_t off = 0;
 			for (int n : bufs) { cb.push_back(asio::const_buffer(pl.data() + off, std::size_t(n))); off += std::size_t(n); }
@@ -287,6 +301,7 @@ struct udp_run
 		w.load(topo);
 		sim.reset(new sim::simulation(w));
 		w.on_probe = [this](std::string const& hop, sim::aux::packet& p) { probe(hop, p); };
+		if (prog.find("pcap") != prog.end()) sim->log_pcap(gets(prog, "pcap").c_str());
 		for (auto const& kv : topo.at("nodes").as_object())
 		{
 			std::vector<asio::ip::address> ips;
@@ -302,10 +317,15 @@ struct udp_run
 			socks[std::string(kv.key())].reset(so);
 		}
 		rec.reset(w.tick_ns);
+		rec.floor_mode = getb(prog, "floor");
 		{
 			json::object c; c["e"] = "Cfg";
 			json::object nat;
-			for (auto const& a : w.addrs) nat[a.first] = a.second.nat;
+			for (auto const& a : w.addrs)
+			{
+				std::size_t plus = a.second.nat.rfind('+');
+				nat[a.first] = plus == std::string::npos ? a.second.nat : a.second.nat.substr(plus + 1);
+			}
 			c["nat"] = nat;
 			json::array m;
 			for (auto const& kv : w.mtu) { json::object r; r["a"] = kv.first.first; r["b"] = kv.first.second; r["m"] = kv.second; m.push_back(r); }
